@@ -5,12 +5,14 @@ from dvlib.core import Broken
 
 ID = 'C32'
 
+PROPS_FILE = 'theories/props/Properties_C32.v'
+CONE = ['theories/BufLog.v', 'theories/PLog.v', 'theories/Repl.v', 'theories/proofs/C19.v', 'theories/proofs/C08.v', 'theories/proofs/C07.v', 'theories/proofs/C32.v']
+
 def check(run):
-    run.level = 'exploration'
     thorough = run.tier == 'thorough'
     run.cov['trusted_base'] += ["cluster simulator: real Raft objects; 'faults stop' = a fixed fair suffix (every node gets an election timeout whose requests reach all, then rounds of tick + deliver everything); time is the number of rounds, not wall-clock"]
     run.assumptions += ["randomised election timers and tokio scheduling are not modelled: the fair suffix replaces them; snapshot-based catch-up is not exercised (C33/C17)"]
-    broken = []; violations = []
+    broken = flow.proof_step(run, PROPS_FILE, CONE); violations = []
     try:
         core.harness_build()
         r = run.rng('c32'); cases = []; dist = {}
@@ -38,9 +40,9 @@ def replay(path): return cluster.replay_cluster(path, [cluster.recovered])
 
 META = {
     'title': 'The cluster recovers once faults stop',
-    'level': 'exploration',
-    'technique': 'exploration: real Raft clusters under a seeded faulty prefix followed by a fixed fair suffix, convergence oracle (liveness with randomised timers is not a Rocq theorem here)',
-    'text': "Liveness under randomised election timers and runtime scheduling cannot be stated on the models of this development; what is checked is that from the state reached by any seeded faulty prefix (message loss/duplication/delay, step-downs, restarts) a fixed fair suffix - each node gets one undisturbed election timeout, then a bounded number of replication rounds in which everything is delivered - ends with one leader of the highest term, a fresh write accepted and committed, identical logs and commit indexes on all nodes. Partial by nature: 'bounded time' is a bound in rounds.",
-    'note': "Exploration only; partial (no theorem, simulated time). Catch-up by snapshot is not exercised.",
+    'level': 'proof',
+    'technique': 'partial: Rocq theorem for the deterministic progress core (catch-up in ceil(lag/cap) fair rounds) + exploration of real Raft clusters under a seeded faulty prefix followed by a fixed fair suffix (liveness with randomised timers is not a theorem here)',
+    'text': "PARTIAL. Rocq (C32_catchup_rounds_partial, on the replication models tied to the code by C08/C19/C07): for every leader log, cap >= 1 and follower agreeing with the leader up to its own last index, each fair heartbeat round delivers a non-empty contiguous request that the follower accepts and that extends the agreement by min(cap, lag); after any k with lag <= k*cap rounds the follower holds the leader's whole log (purge-free logs). Liveness under randomised election timers and runtime scheduling cannot be stated on the models of this development; what is checked is that from the state reached by any seeded faulty prefix (message loss/duplication/delay, step-downs, restarts) a fixed fair suffix - each node gets one undisturbed election timeout, then a bounded number of replication rounds in which everything is delivered - ends with one leader of the highest term, a fresh write accepted and committed, identical logs and commit indexes on all nodes. Partial by nature: 'bounded time' is a bound in rounds.",
+    'note': "Partial: the theorem covers the replication progress core only; leader election within bounded time and real-time bounds are explored on simulated clusters (rounds, not wall-clock). Catch-up by snapshot is not exercised.",
     'design_ref': 'DESIGN.md §4 C32',
 }
